@@ -17,7 +17,10 @@ import (
 	"bytes"
 	"fmt"
 	"os"
+	"os/exec"
+	"path/filepath"
 	"regexp"
+	"sort"
 	"strings"
 	"sync"
 
@@ -42,6 +45,9 @@ type c11Case struct {
 	Rel     bool     `json:"relative_percentages,omitempty"`
 	TagRoot string   `json:"tagroot,omitempty"`
 	TagLeaf string   `json:"tagleaf,omitempty"`
+	// multi: several sources; Profile is the first (main) source, Profile2 the second / the base
+	Profile2 string `json:"profile2,omitempty"`
+	Mode     string `json:"mode,omitempty"` // two | base | diff_base
 }
 
 // simplified asks the model for simplifyFunc(name), cached.
@@ -730,6 +736,156 @@ func c11Stacks(p *profile.Profile) []string {
 	return out
 }
 
+// ---------- several sources: the frame-dropping rules are those of the FIRST source ----------
+
+// ruModelOn applies the model of RemoveUninteresting to q carrying the given expressions.
+func ruModelOn(c *Ctx, e *c11Env, q *profile.Profile, dropF, keepF string) (*profile.Profile, bool) {
+	q.DropFrames, q.KeepFrames = dropF, keepF
+	cur := Canon(q)
+	if dropF == "" {
+		return q, true
+	}
+	drop, keep, ok := c11Compile(c11Case{Drop: dropF, Keep: keepF}, true)
+	if !ok {
+		return nil, false
+	}
+	var w tw
+	n := 1
+	if keepF != "" {
+		n = 2
+	}
+	w.n(n)
+	w.str("^(" + dropF + ")$")
+	w.tok(e.optTbl(drop, q))
+	if keepF != "" {
+		w.str("^(" + keepF + ")$")
+		w.tok(e.optTbl(keep, q))
+	}
+	rep := c.Drv.Ask("ru.model " + w.String() + " " + cur)
+	if !strings.HasPrefix(rep, "ok ") {
+		return nil, false
+	}
+	r, err := ParseCanon(rep[3:])
+	return r, err == nil
+}
+
+// sampleLines: values, labels and frame names of every sample, sorted (a multiset).
+func sampleLines(p *profile.Profile) []string {
+	vs := viewList(p)
+	st := c11Stacks(p)
+	out := make([]string, len(vs))
+	for i := range vs {
+		h, _ := viewFrames(vs[i])
+		out[i] = h + " :: " + st[i][strings.Index(st[i], "]")+1:]
+	}
+	sort.Strings(out)
+	return out
+}
+
+func c11RunMulti(bin, dir string, i int, a, b *profile.Profile, mode string) cliOut {
+	fa := filepath.Join(dir, fmt.Sprintf("ma-%d.pb.gz", i))
+	fb := filepath.Join(dir, fmt.Sprintf("mb-%d.pb.gz", i))
+	out := filepath.Join(dir, fmt.Sprintf("mo-%d.pb.gz", i))
+	for _, x := range []struct {
+		f string
+		p *profile.Profile
+	}{{fa, a}, {fb, b}} {
+		f, err := os.Create(x.f)
+		if err != nil {
+			return cliOut{err: "harness", msg: err.Error()}
+		}
+		if err := x.p.Write(f); err != nil {
+			f.Close()
+			return cliOut{err: "harness", msg: err.Error()}
+		}
+		f.Close()
+	}
+	args := []string{"-proto", "-symbolize=none", "-output=" + out}
+	switch mode {
+	case "base":
+		args = append(args, "-base="+fb, fa)
+	case "diff_base":
+		args = append(args, "-diff_base="+fb, fa)
+	default:
+		args = append(args, fa, fb)
+	}
+	cmd := exec.Command(bin, args...)
+	cmd.Env = append(os.Environ(), "PPROF_BINARY_PATH="+filepath.Join(dir, "nobin"), "PPROF_TMPDIR="+dir, "HOME="+dir)
+	var stderr bytes.Buffer
+	cmd.Stderr = &stderr
+	if err := cmd.Run(); err != nil {
+		return cliOut{err: "exit", msg: c06trunc(stderr.String())}
+	}
+	bs, err := os.ReadFile(out)
+	if err != nil {
+		return cliOut{err: "exit", msg: "no output: " + c06trunc(stderr.String())}
+	}
+	q, err := profile.ParseData(bs)
+	if err != nil {
+		return cliOut{err: "parse", msg: err.Error()}
+	}
+	os.Remove(fa)
+	os.Remove(fb)
+	os.Remove(out)
+	return cliOut{prof: q, views: viewList(q)}
+}
+
+func c11MultiEval(c *Ctx, e *c11Env, cs c11Case, res cliOut) {
+	a, err1 := ParseCanon(cs.Profile)
+	b, err2 := ParseCanon(cs.Profile2)
+	if err1 != nil || err2 != nil {
+		c.Res.HarnessError = "ParseCanon (multi)"
+		return
+	}
+	if res.err == "harness" {
+		c.Res.HarnessError = res.msg
+		return
+	}
+	dropF, keepF := a.DropFrames, a.KeepFrames // the rules of the first source, and only those
+	desc := fmt.Sprintf("mode=%s first source drop_frames=%q keep_frames=%q, other source drop_frames=%q keep_frames=%q", cs.Mode, dropF, keepF, b.DropFrames, b.KeepFrames)
+	ea, ok1 := ruModelOn(c, e, a, dropF, keepF)
+	eb, ok2 := ruModelOn(c, e, b, dropF, keepF)
+	if !ok1 || !ok2 {
+		c.Disagree("C11/multi-model", "model of RemoveUninteresting gives no result", "correspondence Prune.removeUninteresting ~ RemoveUninteresting", cs)
+		return
+	}
+	if cs.Mode != "two" {
+		for _, sm := range eb.Sample {
+			for i := range sm.Value {
+				sm.Value[i] = -sm.Value[i]
+			}
+			if cs.Mode == "diff_base" {
+				if sm.Label == nil {
+					sm.Label = map[string][]string{}
+				}
+				sm.Label["pprof::base"] = []string{"true"}
+			}
+		}
+	}
+	c.Res.ModelCompared++
+	if res.err != "" {
+		c.Violation("C11/multi/"+res.err, "pprof -proto on two valid sources fails ("+desc+"): "+res.msg, cs)
+		return
+	}
+	want := append(sampleLines(ea), sampleLines(eb)...)
+	sort.Strings(want)
+	got := sampleLines(res.prof)
+	if strings.Join(got, "\n") != strings.Join(want, "\n") {
+		i := 0
+		for i < len(got) && i < len(want) && got[i] == want[i] {
+			i++
+		}
+		g, w := "", ""
+		if i < len(got) {
+			g = got[i]
+		}
+		if i < len(want) {
+			w = want[i]
+		}
+		c.Violation("C11/multi/first-source-rules", fmt.Sprintf("pprof -proto on two sources (%s): %d samples, first difference %q; applying the first source's drop/keep rules to every sample gives %d samples, %q", desc, len(got), c06trunc(g), len(want), c06trunc(w)), cs)
+	}
+}
+
 // ---------- generators ----------
 
 var c11Names = []string{"d1", "d2", "d3", "k1", "kd", "u1", "u2", "main", ".d1", "d2(int)", "ns::(anonymous namespace)::d1(int)",
@@ -859,6 +1015,20 @@ func runC11Case(c *Ctx, e *c11Env, cs c11Case) {
 		c11Simplify(c, e, cs)
 	case "noexpr":
 		c11NoExpr(c, cs)
+	case "multi":
+		a, err1 := ParseCanon(cs.Profile)
+		b, err2 := ParseCanon(cs.Profile2)
+		if err1 != nil || err2 != nil {
+			c.Res.HarnessError = "ParseCanon (multi)"
+			return
+		}
+		dir, err := os.MkdirTemp("", "pv-c11-")
+		if err != nil {
+			c.Res.HarnessError = err.Error()
+			return
+		}
+		defer os.RemoveAll(dir)
+		c11MultiEval(c, e, cs, c11RunMulti(c.Pprof, dir, 0, a, b, cs.Mode))
 	case "agg":
 		p, err := ParseCanon(cs.Profile)
 		if err != nil {
@@ -923,7 +1093,7 @@ func c11NoExpr(c *Ctx, cs c11Case) {
 }
 
 func runC11(c *Ctx) {
-	c.Res.Rule = "profiles with inlined multi-line locations (match at the root-most line, in the middle, at the leaf-most line), locations shared by several samples, unsymbolized locations, empty stacks, functions with empty names and names that simplifyFunc rewrites (leading '.', argument lists, reserved '(anonymous namespace)' / 'operator()'); drop/keep expressions from a list of alternations/classes/wildcards, anchored as RemoveUninteresting does and unanchored for Prune; streams: Prune, RemoveUninteresting, PruneFrom (inputs violating the hypothesis of the _partial theorems on known-finding streams), simplifyFunc through anchored quoted names, no-expression identity, `pprof -proto` on profiles carrying drop_frames/keep_frames and with -prune_from, also combined with focus/ignore/hide/show/tagfocus expressions that match on the leaf side of the prune point (the filters must decide on the unpruned stacks), and `pprof -traces` / `-proto -noinlines` with every granularity (default, functions, files, lines, addresses, filefunctions), -noinlines, -relative_percentages on/off and -tagroot/-tagleaf (expected stacks = aggregation applied AFTER drop/keep frames, label frames and prune_from on the original names). non-trivial = the expressions match at least one but not all locations in use; distinct by expressions + canonical profile"
+	c.Res.Rule = "profiles with inlined multi-line locations (match at the root-most line, in the middle, at the leaf-most line), locations shared by several samples, unsymbolized locations, empty stacks, functions with empty names and names that simplifyFunc rewrites (leading '.', argument lists, reserved '(anonymous namespace)' / 'operator()'); drop/keep expressions from a list of alternations/classes/wildcards, anchored as RemoveUninteresting does and unanchored for Prune; streams: Prune, RemoveUninteresting, PruneFrom (inputs violating the hypothesis of the _partial theorems on known-finding streams), simplifyFunc through anchored quoted names, no-expression identity, `pprof -proto` on profiles carrying drop_frames/keep_frames and with -prune_from, also combined with focus/ignore/hide/show/tagfocus expressions that match on the leaf side of the prune point (the filters must decide on the unpruned stacks), and `pprof -traces` / `-proto -noinlines` with every granularity (default, functions, files, lines, addresses, filefunctions), -noinlines, -relative_percentages on/off and -tagroot/-tagleaf (expected stacks = aggregation applied AFTER drop/keep frames, label frames and prune_from on the original names; sparse ids and id tables that are not sorted), and two-source runs (pprof a b, -base, -diff_base) whose sources carry different, also empty, drop_frames/keep_frames (the rules of the first source only apply, to every sample). non-trivial = the expressions match at least one but not all locations in use; distinct by expressions + canonical profile"
 	e := &c11Env{c: c, simp: map[string]string{}}
 	if c.Replay != "" {
 		var cs c11Case
@@ -1167,7 +1337,11 @@ func runC11(c *Ctx) {
 		if i%3 != 0 {
 			p.DropFrames, p.KeepFrames = pick(c11Drops), pick(c11Keeps)
 		}
-		if i%4 == 1 {
+		if r.Chance(60) {
+			sparsifyIDs(r, p) // sparse ids, tables not sorted by id
+			c.Res.Hit("agg:sparse-or-unsorted-ids")
+		}
+		if i%4 == 1 || (cs.Out == "proto" && r.Chance(60)) {
 			if r.Bool() {
 				cs.TagRoot = pick([]string{"k", "bytes", "k,bytes", "nokey"})
 			} else {
@@ -1211,5 +1385,74 @@ func runC11(c *Ctx) {
 		}
 		c.Res.Count(c11Key(cs)+fmt.Sprint(cs.Out, cs.Flags, cs.Rel, cs.TagRoot, cs.TagLeaf), nt)
 		c11AggEval(c, e, cs, aouts[i])
+	}
+	// ---- several sources with DIFFERENT drop_frames/keep_frames (also empty): pprof a b, -base, -diff_base
+	nM := 150 * c.Scale
+	mcs := make([]c11Case, nM)
+	mas := make([]*profile.Profile, nM)
+	mbs := make([]*profile.Profile, nM)
+	prep := func(p *profile.Profile, tag string) *profile.Profile {
+		for i, sm := range p.Sample {
+			for j := range sm.Value {
+				sm.Value[j] = int64(1 + r.Intn(500)) // no zero samples: Merge would drop them
+			}
+			if sm.Label == nil {
+				sm.Label = map[string][]string{}
+			}
+			sm.Label["src"] = []string{fmt.Sprintf("%s%d", tag, i)} // no two samples merge
+		}
+		var buf bytes.Buffer
+		p.Write(&buf)
+		q, err := profile.ParseData(buf.Bytes())
+		if err != nil {
+			return nil
+		}
+		return q
+	}
+	for i := range mcs {
+		a := genC11Profile(r, true)
+		b := genC11Profile(r, true)
+		for k := 0; k < 50 && len(b.SampleType) != len(a.SampleType); k++ {
+			b = genC11Profile(r, true)
+		}
+		switch i % 4 {
+		case 0: // the main source has no rules, the other one does
+			b.DropFrames, b.KeepFrames = pick(c11Drops[:13]), pick(c11Keeps)
+		case 1: // drop rule only in the first, keep rule only in the other
+			a.DropFrames = pick(c11Drops[:13])
+			b.DropFrames, b.KeepFrames = pick(c11Drops), pick(c11Keeps[2:])
+		case 2:
+			a.DropFrames, a.KeepFrames = pick(c11Drops[:13]), pick(c11Keeps)
+			b.DropFrames, b.KeepFrames = pick(c11Drops), pick(c11Keeps)
+		default:
+			a.DropFrames, a.KeepFrames = pick(c11Drops[:13]), pick(c11Keeps)
+		}
+		if len(b.SampleType) != len(a.SampleType) {
+			b.SampleType = a.SampleType
+		}
+		a, b = prep(a, "a"), prep(b, "b")
+		if a == nil || b == nil {
+			c.Res.HarnessError = "generated profile does not round-trip"
+			return
+		}
+		mcs[i] = c11Case{Kind: "multi", Stream: "main", Profile: Canon(a), Profile2: Canon(b), Mode: []string{"two", "base", "diff_base"}[i%3]}
+		mas[i], mbs[i] = a, b
+		c.Res.Hit("multi:" + mcs[i].Mode)
+		c.Res.Hit(fmt.Sprintf("multi:first-has-drop=%v,keep=%v;other-has-drop=%v,keep=%v", a.DropFrames != "", a.KeepFrames != "", b.DropFrames != "", b.KeepFrames != ""))
+	}
+	mouts := make([]cliOut, nM)
+	for i := range mcs {
+		wg.Add(1)
+		sem <- struct{}{}
+		go func(i int) {
+			defer wg.Done()
+			defer func() { <-sem }()
+			mouts[i] = c11RunMulti(c.Pprof, dir, i, mas[i], mbs[i], mcs[i].Mode)
+		}(i)
+	}
+	wg.Wait()
+	for i, cs := range mcs {
+		c.Res.Count(c11Key(cs)+cs.Profile2+cs.Mode, mas[i].DropFrames != mbs[i].DropFrames || mas[i].KeepFrames != mbs[i].KeepFrames)
+		c11MultiEval(c, e, cs, mouts[i])
 	}
 }
